@@ -405,7 +405,12 @@ def catalogue_c10(seed, tier, rng):
     def R(kind, dt, layout, **kw):
         scalar_res = kw.pop("scalar_res", False)
         nan_at = kw.pop("nan_at", None)
+        nonfinite = kw.pop("nonfinite", True)
         rid = "%s_%s_%s%s%s" % (kind, dt, layout, "_sres" if scalar_res else "", "_nan%d_%d" % nan_at if nan_at else "")
+        # every variation of shape / georeferencing / content is its own pool raster
+        var = sorted((k, repr(v)) for k, v in list(kw.items()) + ([("nonfinite", False)] if not nonfinite else []))
+        if var:
+            rid += "_" + "".join("%s%s" % (k[0], "".join(ch for ch in v if ch.isalnum())) for k, v in var)
         if rid in c.pool:
             return rid
         if scalar_res:
@@ -415,7 +420,7 @@ def catalogue_c10(seed, tier, rng):
         H, W = kw.pop("shape", (H0, W0))
         if kind == "elev":
             d = elev(rs, dt, H, W)
-            if d.dtype.kind == "f" and H >= 4 and W >= 4 and kw.pop("nonfinite", True):
+            if d.dtype.kind == "f" and H >= 4 and W >= 4 and nonfinite:
                 # NaN / +-inf cells: functions that "clean" such cells must do it on a copy
                 d[1, 2] = np.nan
                 d[H - 2, 1] = np.inf
